@@ -146,16 +146,25 @@ func oracleC01(r *Result) ([]Violation, bool) {
 			if op.InStop {
 				// was the stopping instance still claiming when its stop call was issued?
 				where = "StopWithContext/caller-did-not-lead-at-call"
+				var callT time.Duration = -1
 				for _, e := range r.Trace {
 					if e.T > op.TIssue {
 						break
 					}
 					if e.K == "api.call" && e.I == op.Inst && strings.HasPrefix(e.S, "stopctx:") {
+						callT = e.T
 						if e.B {
 							where = "StopWithContext/caller-led-at-call"
 						} else {
 							where = "StopWithContext/caller-did-not-lead-at-call"
 						}
+					}
+				}
+				// a second (third ...) Delete of the same stop call: a shutdown deletes once
+				for _, o2 := range r.Ops {
+					if o2 != op && o2.Inst == op.Inst && o2.Kind == "Delete" && o2.InStop && o2.TIssue >= callT && o2.TIssue < op.TIssue {
+						where += "/repeated-delete"
+						break
 					}
 				}
 			}
@@ -219,6 +228,22 @@ func oracleC05(r *Result) ([]Violation, bool) {
 		}
 	}
 	for _, e := range r.Trace {
+		// a Status() call made concurrently with the library's own activity (fine windows):
+		// a snapshot that says "leader" at revision N carries the token this instance stored
+		// in revision N
+		if e.K == "api.ret" && strings.HasPrefix(e.S, "status") {
+			if f := strings.Split(e.S2, "|"); len(f) >= 5 && f[1] == "true" {
+				var rev uint64
+				fmt.Sscanf(f[4], "%d", &rev)
+				for _, op := range r.Ops {
+					if op.Inst == e.I && op.isStoreOp() && op.Wrote != nil && !op.Wrote.Del && op.Wrote.Rev == rev && rev > 0 {
+						if p, ok := parsePayload(op.Val); ok && p.Token != f[3] {
+							s.add(e.T, "status-token-differs-from-record", "%s: a concurrent Status() call returned IsLeader=true Revision=%d Token=%q, but the record %s stored at revision %d carries token %s", e.I, rev, f[3], e.I, rev, p.Token)
+						}
+					}
+				}
+			}
+		}
 		if e.K == "promote" {
 			found := false
 			for _, t := range acq[e.I] {
